@@ -155,7 +155,8 @@ def coq_make(targets, jobs=16):
     if rc != 0:
         return False, out
     with TargetLock(targets):
-        rc, out = run_cmd(["make", f"-j{jobs}"] + targets, cwd=COQ, timeout=COQ_TIMEOUT)
+        # every single coqc runs under its own time limit, so that one diverging file cannot eat the whole budget
+        rc, out = run_cmd(["make", f"-j{jobs}", "COQC=timeout 900 coqc"] + targets, cwd=COQ, timeout=COQ_TIMEOUT)
         if rc != 0 and "Error" not in out[-3000:]:
             # a concurrent build of a shared dependency can leave a truncated .vo: retry once
             rc, out = run_cmd(["make", f"-j{jobs}"] + targets, cwd=COQ, timeout=COQ_TIMEOUT)
